@@ -358,7 +358,7 @@ C = Spec(
               ["switch ({v}) {{", "    case {m}:", "    {b}", "        break;", "    default:", "    {b}", "}}"], ["{{", "{b}", "}}"],
               ["#ifdef A{n}", "{b}", "#else", "{b}", "#endif"],
               ["for (i = {m}, j = {m}; i < j; i++, j--) {{", "{b}", "}}"], ["for (struct S *it = ps; it; it = it->next) {{", "{b}", "}}"], ["switch ({v}) {{", "    case {m}: case {m}:", "    {b}", "    case {m}: {{", "    {b}", "    }}", "}}"], ["switch ({v}) {{ }}"],
-              ["if ({v} > {m}) {{", "}} else {{", "{b}", "}}"], ["while (1) {{", "{b}", "    if ({v} > {m}) break;", "    continue;", "}}"], ["again{n}:", "{b}", "if ({v} < {m}) goto again{n};"], ["#if defined(A) && B > {m}", "{b}", "#elif C", "{b}", "#endif"],
+              ["if ({v} > {m}) {{", "}} else {{", "{b}", "}}"], ["while (1) {{", "{b}", "    if ({v} > {m}) break;", "    continue;", "}}"], ["again{n}: ;", "{b}", "if ({v} < {m}) goto again{n};"], ["#if defined(A) && B > {m}", "{b}", "#elif C", "{b}", "#endif"],
               ["if ({v}) {{", "{b}", "}} else if ({v} == {m}) {{", "}} else {{", "}}"], ["do {{", "{b}", "    if ({v}) continue;", "}} while (0);"]],
     decls=[["int g{n} = {m};"], ["static const char *gs{n} = \"s\";"], ["struct S{n} {{", "    int a;", "    char b[{m}];", "    struct S{n} *next;", "}};"],
            ["union U{n} {{ int a; float b; }};"], ["enum E{n} {{ EA{n} = {m}, EB{n} }};"], ["enum X{n} {{ XA{n} = {m} + 2, XB{n} = sizeof(int), XC{n} = -1, XD{n} = XA{n} | {m}, XE{n} = (int) {m} }};"], ["typedef struct {{ int a; }} T{n};"],
@@ -444,7 +444,7 @@ def _has(*needles):
 
 
 GROUPS = {
-    "ts-field-or-index-write": ("typescript", _has(".f = ", "] = {v};", ".h = {v};", "this.x = v", ".f += ", "]++;", "--{v}.f", "this.#p = a")),
+    "ts-field-or-index-write": ("typescript", _has("{v}.f = {m};", "{v}[{m}] = {v};", ".h = {v};", "this.x = v", "this.#p = a", "module.exports = ")),
     "ts-destructuring-with-key": ("typescript", _has("{{a: p{n}", "({{a: {v}", "{{b, c = {m}}}")),
     "ts-abstract-class": ("typescript", _has("abstract class")),
     "ts-new-without-arguments": ("typescript", _has("new Date;")),
